@@ -2,7 +2,7 @@
 from common_props import COMMON_TRUSTED
 
 CFG = {
-    "engines": [["cut", 4, 12]],
+    "engines": [["cut", 4, 12], ["stallwrite", 3, 12]],
     "engine_timeout": 1500,
     "rule": "cut: a real client channel calls (300 ms deadline) through a loopback proxy that, at byte offset n of the request or "
             "of the response stream, closes both sockets / half-closes towards the receiver / stalls that direction / closes "
